@@ -266,6 +266,18 @@ def adv7 (c impl : List String) : Option Verdict := do
          note := if late && !ok then lostNote else "",
          agreeOverride := if late then some true else none }
 
+/-- `advF …` — C10 on a full advertiser run with a failing transmission: the C07 oracle, and the
+    run must end as the failure demands (status `error`: Run returned the error, or — a transient
+    system call error — the interface was torn down and re-dialled) -/
+def advF (c impl : List String) : Option Verdict := do
+  let v ← adv7 c impl
+  let cs ← P.run pAdvCase c
+  let i ← P.run pImplAdv impl
+  let want := if (failureTime cs).isSome then "error" else "nil"
+  let statusOk := i.status == want
+  pure { v with oracle := v.oracle && statusOk, nontrivial := (failureTime cs).isSome,
+                note := if !statusOk then s!"a transmission failed but the task neither ended with the error nor was re-established (status {i.status}, expected {want}): the task lingers half-alive" else v.note }
+
 /-- `rein tf window | redialled n t…`: the multicast RAs on the connection of a re-initialised
     interface are those of a fresh start (the model run from its own instant 0, no events) -/
 def rein (c impl : List String) : Option Verdict := do
